@@ -4,6 +4,17 @@ For every (sector, order n, nf, gamma tower, base coupling pair) both couplings 
 lambda = 1, 1/2, ..., 1/512 and  D(lambda) = max|approximate kernel - exact solution|  is measured against
 the 40-digit ODE reference (vf/ref/c07_ode.py; scalar for the non-singlet, path-ordered 2x2 for the
 singlet).  The local exponents log2(D_i/D_{i+1}) in the asymptotic window must be >= n - 0.25.
+
+Two sharper, property-local oracles sit on top of the exponent rule (which alone resolves the coefficient of the
+a^(n-1) term only to ~1 % at N3LO):
+* Richardson-eliminated signed difference: Delta(lambda) = kernel - exact is a power series in lambda, so
+  T(lambda) = Delta(lambda) - 2^n Delta(lambda/2) contains no lambda^n term at all; what the statement allows is
+  T = O(lambda^(n+1)), a wrong term below the working order leaves -C_(n-1) lambda^(n-1).  Judged on the local
+  exponents of max|T| (>= n + 1 - 0.25 in the asymptotic window, see _decide_richardson).
+* coefficient level ("no approximate method gets any term below the working order wrong"): the U-vectors the
+  truncated / ordered-truncated / perturbative kernels are built from (non_singlet.U_vec, singlet.r_vec, singlet.u_vec)
+  against the series coefficients R_k of gamma/beta and U_k computed at 40 digits from the definition
+  (vf/ref/c08_coeff.py: Toeplitz solve + Sylvester system, no projectors), k < n, to 1e-13 relative.
 """
 
 import hashlib
@@ -15,15 +26,20 @@ import numpy as np
 
 from vf.core.ctx import Result
 from vf.ref import c07_ode as R
+from vf.ref import c08_coeff as CO
 
 ID = "C08"
 LEVEL = "exploration"
-TECHNIQUE = "exhaustive lattice; scaling exponent of (approximate - exact) against a 40-digit path-ordered ODE reference"
+TECHNIQUE = (
+    "exhaustive lattice; scaling exponent of (approximate - exact) and of its Richardson-eliminated signed difference against a "
+    "40-digit path-ordered ODE reference; U-vector coefficients against a 40-digit series/Sylvester reference"
+)
 LEVEL_TEXT = (
     "on every point of the finite lattice (order 2-4, nf 3-6, fixed complex towers, base coupling pairs, all "
     "approximate methods incl. every perturbative configuration listed) the difference to the exact solution "
-    "scales at least like a^n in the asymptotic window reached by halving both couplings down to 1/512; "
-    "nothing is claimed off the lattice"
+    "scales at least like a^n in the asymptotic window reached by halving both couplings down to 1/512, the signed "
+    "difference with its a^n term eliminated scales at least like a^(n+1), and every coefficient R_k, U_k (k < n) the "
+    "truncated / perturbative kernels use equals the 40-digit value to 1e-13; nothing is claimed off the lattice"
 )
 LEVEL_NOTE = (
     "trusted: mpmath, my beta table, the Taylor ODE solver (cross-checked against quadrature in C07 and at "
@@ -34,6 +50,8 @@ FLOOR_NONTRIVIAL = 50
 FLOOR = 1e-13  # residual treated as zero (double-precision noise of an O(1) kernel)
 SLACK = 0.25
 WINDOW = 0.1
+FLOOR_T = 1e-12  # the same for T = Delta(lambda) - 2^n Delta(lambda/2): (1 + 2^n) x the noise of Delta
+TOL_COEFF = 1e-13  # relative (max-norm per matrix) deviation of R_k / U_k, k < n; measured maximum 2.4e-15
 LAMBDAS = [2.0**-i for i in range(10)]  # 1 .. 1/512
 NFS = [3, 4, 5, 6]
 LA = [0.002, 0.005, 0.0125, 0.03, 0.05]
@@ -128,8 +146,50 @@ def _decide(ds, n):
         return "ok", exps
     if abs(e1 - e2) <= WINDOW:
         return "FAIL", exps
-    # not yet asymptotic at the smallest usable lambda: decided only if the trend is clear
+    if max(e1, e2) < n - 1.0 - SLACK:
+        # still drifting, but both a full unit short (same rule as vf/core/scaling.judge)
+        return "FAIL", exps
+    # not asymptotic at the smallest usable lambda although the residual is still above the noise: on the unchanged tree
+    # this never happens on the lattice (a small error in the a^(n-1) coefficient produces exactly this picture: exponent n
+    # at large lambda bending towards n-1), so it is reported, under its own signature
     return "undecided", exps
+
+
+def _decide_richardson(deltas, n):
+    """deltas: signed differences kernel - exact at LAMBDAS (complex arrays).
+
+    Delta(lambda) = sum_k C_k lambda^k, so T_i = Delta(lambda_i) - 2^n Delta(lambda_i / 2) has no lambda^n term:
+    T = -C_(n-1) lambda^(n-1) (1) + C_(n+1) lambda^(n+1) / 2 + ...; the statement allows exponent >= n + 1 only.
+    Returns (verdict, exps) ; verdict in ok / ok-dip / ok-recovering / zero / few / FAIL-converged / FAIL-short / FAIL-drifting.
+    """
+    if any(d is None or not np.all(np.isfinite(d)) for d in deltas):
+        return "nonfinite", []  # reported by the exponent rule
+    ts = [float(np.max(np.abs(deltas[i] - 2.0**n * deltas[i + 1]))) for i in range(len(deltas) - 1)]
+    exps = []
+    for i in range(len(ts) - 1):
+        if ts[i] > FLOOR_T and ts[i + 1] > FLOOR_T:
+            exps.append(math.log2(ts[i] / ts[i + 1]))
+        else:
+            break
+    if not ts[0] > FLOOR_T:
+        return "zero", exps
+    if len(exps) < 2:
+        return "few", exps
+    e1, e2 = exps[-2], exps[-1]
+    thr = n + 1 - SLACK
+    if min(e1, e2) >= thr:
+        return "ok", exps
+    if max(e1, e2) < thr - 1.0:
+        return "FAIL-short", exps
+    if abs(e1 - e2) <= WINDOW:
+        return "FAIL-converged", exps
+    if 0.5 * (e1 + e2) >= thr:
+        # max|T| passes close to a zero at one of the last three lambdas (two terms of opposite sign): the two-step
+        # exponent, which does not see an interior zero, is what counts
+        return "ok-dip", exps
+    if e2 > e1:
+        return "ok-recovering", exps  # leaving such a zero upwards; a wrong low-order term bends the exponents DOWN
+    return "FAIL-drifting", exps
 
 
 def _ns_methods(EvoMethods):
@@ -183,11 +243,95 @@ def _reference(sector, ti, tower, n, nf, a0, a1):
     return out
 
 
+def _rel(got, ref):
+    """max-norm deviation relative to the max-norm of the reference (absolute if the reference vanishes)"""
+    got = np.asarray(got, dtype=np.complex128).reshape(-1)
+    ref = np.asarray(ref, dtype=np.complex128).reshape(-1)
+    if got.shape != ref.shape or not np.all(np.isfinite(got)):
+        return float("inf")
+    d = float(np.max(np.abs(got - ref)))
+    sc = float(np.max(np.abs(ref)))
+    return d / sc if sc > 0 else d
+
+
+def _evaluate_coeff(case):
+    """Coefficient-level oracle: R_k, U_k (k < n) of eko against the 40-digit series / Sylvester reference."""
+    from eko import beta
+    from eko.kernels import non_singlet as ns
+    from eko.kernels import singlet as s
+
+    res = Result()
+    n = case["order"]
+    nf = case["nf"]
+    sector = case["sector"]
+    betalist = [beta.beta_qcd((2 + i, 0), nf) for i in range(n)]  # as both dispatchers build it
+    worst = 0.0
+    ncmp = 0
+    if sector == "ns":
+        tower = NS_TOWERS[case["tower"]]
+        rs, us = CO.tower_coefficients(tower, n, nf, "ns")
+        g = np.array([R.to_c(z) for z in tower[:n]], dtype=np.complex128)
+        try:
+            U = np.array(ns.U_vec(g, betalist, (n, 0)), dtype=np.complex128)
+        except Exception as ex:  # noqa
+            res.fail(f"non_singlet.U_vec/order={n}/raises", f"{type(ex).__name__}: {ex} nf={nf} tower={case['tower']}")
+            U = None
+        if U is not None:
+            for k in range(n):
+                ref = complex(us[k][0])
+                d = _rel(U[k : k + 1], [ref]) if len(U) > k else float("inf")
+                ncmp += 1
+                if math.isfinite(d):
+                    worst = max(worst, d)
+                if not d <= TOL_COEFF:
+                    res.fail(
+                        f"non_singlet.U_vec/order={n}/k={k}",
+                        f"nf={nf} tower={case['tower']}: U_{k} = {U[k] if len(U) > k else None!r}, 40-digit value from the definition "
+                        f"(series of gamma/beta, k U_k = R_k + sum R_(k-j) U_j) = {ref!r}, rel.dev {d:.3e} > {TOL_COEFF}",
+                    )
+    else:
+        commuting = sector == "s-comm"
+        tower = (S_COMM if commuting else S_NONCOMM)[case["tower"]]
+        rs, us = CO.tower_coefficients(tower, n, nf, "s")
+        rref = [np.array([complex(x) for x in rk]).reshape(2, 2) for rk in rs]
+        uref = [np.array([complex(x) for x in uk]).reshape(2, 2) for uk in us]
+        g = np.array([[[R.to_c(z) for z in row] for row in m] for m in tower[:n]], dtype=np.complex128)
+        # every (ev_op_max_order, fill-up) configuration the kernels of this lattice are called with
+        for mo in (n, n + 1, 10):
+            for is_exact in (False, True):
+                tag = f"max_order={'n' if mo == n else 'n+1' if mo == n + 1 else mo}/{'exact' if is_exact else 'expanded'}"
+                where = f"nf={nf} sector={sector} tower={case['tower']} ev_op_max_order={mo} is_exact={is_exact}"
+                try:
+                    r = np.array(s.r_vec(g.copy(), betalist, (mo, 0), (n, 0), is_exact))
+                    u = np.array(s.u_vec(r, (mo, 0)))
+                except Exception as ex:  # noqa
+                    res.fail(f"singlet.u_vec/order={n}/{tag}/raises", f"{type(ex).__name__}: {ex} {where}")
+                    continue
+                for k in range(n):
+                    for name, got, ref in (("r_vec", r, rref), ("u_vec", u, uref)):
+                        d = _rel(got[k], ref[k]) if len(got) > k else float("inf")
+                        ncmp += 1
+                        if math.isfinite(d):
+                            worst = max(worst, d)
+                        if not d <= TOL_COEFF:
+                            res.fail(
+                                f"singlet.{name}/order={n}/k={k}/{tag}",
+                                f"{where}: {'R' if name == 'r_vec' else 'U'}_{k} = {got[k].tolist() if len(got) > k else None}, 40-digit value from the "
+                                f"definition = {ref[k].tolist()}, rel.dev {d:.3e} > {TOL_COEFF}",
+                            )
+    res.info = {"max_coefficient_rel_dev": worst, "coefficients_compared": ncmp, "verdicts": {}}
+    res.outcome = f"coeff-{sector}:" + ("equal" if not res.fails else "DIFFER")
+    res.nontrivial = ncmp > 0
+    return res
+
+
 def evaluate(case):
     from eko.kernels import EvoMethods
     from eko.kernels import non_singlet as ns
     from eko.kernels import singlet as s
 
+    if case.get("kind") == "coeff":
+        return _evaluate_coeff(case)
     res = Result()
     n = case["order"]
     nf = case["nf"]
@@ -210,10 +354,12 @@ def evaluate(case):
         refs.append((a0, a1, _reference(sector, case["tower"], tower, n, nf, a0, a1)))
     verdicts = {}
     shortfall = -10.0
+    shortfall_t = -10.0
     worst = ""
     decided = 0
     for kern, meth, conf in methods:
         ds = []
+        deltas = []
         err = None
         for a0, a1, ref in refs:
             try:
@@ -221,12 +367,16 @@ def evaluate(case):
                     e = np.array(complex(ns.dispatcher((n, 0), meth, g, a1, a0, nf)))
                 else:
                     e = np.array(s.dispatcher((n, 0), meth, g, a1, a0, nf, conf[0], (conf[1], 0)))
-                d = float(np.max(np.abs(e - ref)))
+                delta = np.asarray(e - ref, dtype=np.complex128)
+                d = float(np.max(np.abs(delta)))
             except Exception as ex:  # noqa
                 err = f"{type(ex).__name__}: {ex}"
                 d = None
+                delta = None
             ds.append(d)
+            deltas.append(delta)
         v, exps = _decide(ds, n)
+        vt, exps_t = _decide_richardson(deltas, n)
         mod = "non_singlet" if sector == "ns" else "singlet"
         kname = NS_KERNEL["expanded"][n] if kern == "expanded" else kern
         sig = f"{mod}.{kname}/order={n}"
@@ -238,6 +388,20 @@ def evaluate(case):
             res.fail(sig + "/nonfinite", (err or "nan/inf") + " " + where)
         elif v == "FAIL":
             res.fail(sig, f"difference to the exact solution scales like a^{exps[-1]:.2f} < a^{n}: " + where)
+        elif vt.startswith("FAIL"):
+            # (one defect = one signature: reported only where the exponent rule itself does not fail)
+            res.fail(
+                sig + "/richardson",
+                f"kernel - exact with its a^{n} term eliminated, T = Delta(lambda) - 2^{n} Delta(lambda/2), scales like lambda^{exps_t[-1]:.2f} "
+                f"({vt[5:]}; local exponents of max|T| above {FLOOR_T}: {['%.2f' % x for x in exps_t]}) where only lambda^{n + 1} and higher may remain: "
+                f"a term below the working order is wrong. " + where,
+            )
+        elif v == "undecided":
+            res.fail(
+                sig + "/undecided",
+                f"local exponents still drift at the smallest lambda with a residual above the noise floor (last two {exps[-2]:.2f}, {exps[-1]:.2f}; "
+                f"required >= {n - SLACK}): " + where,
+            )
         if v in ("ok", "FAIL"):
             decided += 1
         if v == "ok" and n - min(exps[-2:]) > shortfall:
@@ -245,8 +409,13 @@ def evaluate(case):
             worst = f"{sig} method={meth.name} conf={conf} nf={nf} sector={sector} tower={case['tower']} pair={case['pair']} exps={['%.2f' % x for x in exps]}"
         key = f"{kname}:{v}"
         verdicts[key] = verdicts.get(key, 0) + 1
-    res.info = {"max_exponent_shortfall_of_passing": shortfall, "worst_passing": worst, "decided": decided, "verdicts": verdicts}
-    classes = sorted({k.split(":")[1] for k in verdicts})
+        # ---- Richardson-eliminated signed difference (verdict computed above)
+        if vt == "ok":
+            shortfall_t = max(shortfall_t, n + 1 - min(exps_t[-2:]))
+        key = f"{kname}:T-{vt}"
+        verdicts[key] = verdicts.get(key, 0) + 1
+    res.info = {"max_exponent_shortfall_of_passing": shortfall, "max_richardson_exponent_shortfall_of_ok": shortfall_t, "worst_passing": worst, "decided": decided, "verdicts": verdicts}
+    classes = sorted({k.split(":")[1] for k in verdicts if not k.split(":")[1].startswith("T-")})
     res.outcome = f"{sector}:" + ",".join(classes)
     res.nontrivial = decided > 0
     return res
@@ -261,6 +430,13 @@ def _pairs(thorough, sector):
     return [[0.0125, 0.05], [0.05, 0.0125], [0.002, 0.05]]
 
 
+# kernels for which a verdict other than ok/FAIL of the exponent rule is legitimate: the decompose-exact kernels ARE the exact
+# solution on commuting towers (verdict zero), the perturbative-exact kernel with ev_op_max_order = 10 differs from the exact
+# solution by ~a^10 (below the noise after two halvings).  Everything else must be decided on every (case, method).
+MAY_BE_EXACT = ("nlo_decompose_exact", "nnlo_decompose_exact", "n3lo_decompose_exact")
+MIN_DECIDED = {"eko_perturbative/exact": 0.75}  # measured: 0.911 (quick), 0.853 (thorough), see evidence decided_fraction_per_kernel
+
+
 def run(ctx):
     th = ctx.thorough()
     cases = []
@@ -269,32 +445,69 @@ def run(ctx):
             for t in range(len(NS_TOWERS)):
                 for p in _pairs(th, "ns"):
                     cases.append({"sector": "ns", "order": n, "nf": nf, "tower": t, "pair": p})
-            for t in range(len(S_NONCOMM) if th else 2):
+                cases.append({"kind": "coeff", "sector": "ns", "order": n, "nf": nf, "tower": t})
+            for t in range(len(S_NONCOMM)):
                 for p in _pairs(th, "s"):
                     cases.append({"sector": "s-noncomm", "order": n, "nf": nf, "tower": t, "pair": p})
+                cases.append({"kind": "coeff", "sector": "s-noncomm", "order": n, "nf": nf, "tower": t})
             for t in range(len(S_COMM)):
                 for p in _pairs(th, "s"):
                     cases.append({"sector": "s-comm", "order": n, "nf": nf, "tower": t, "pair": p})
+                cases.append({"kind": "coeff", "sector": "s-comm", "order": n, "nf": nf, "tower": t})
     results = ctx.run_cases(cases, evaluate)
     tot = {}
     for _, out in results:
         for k, v in ((out[3] or {}).get("verdicts") or {}).items():
             tot[k] = tot.get(k, 0) + v
-    wl = sorted(((out[3] or {}).get("max_exponent_shortfall_of_passing", -10), (out[3] or {}).get("worst_passing", "")) for _, out in results)
-    ctx.extra.update(verdicts_per_kernel=tot, closest_passing=[f"{a:.3f} {b}" for a, b in wl[-3:]])
+    # ---- cross-case vacuity pins: a verdict that is neither ok nor FAIL is a silent pass; its number is part of the oracle
+    kernels = sorted({k.split(":")[0] for k in tot})
+    frac = {}
+    for kn in kernels:
+        cnt = {k.split(":")[1]: v for k, v in tot.items() if k.split(":")[0] == kn and not k.split(":")[1].startswith("T-")}
+        total = sum(cnt.values())
+        dec = cnt.get("ok", 0) + cnt.get("FAIL", 0) + cnt.get("undecided", 0) + cnt.get("FAIL-nonfinite", 0)
+        frac[kn] = round(dec / total, 4) if total else 0.0
+        if kn in MAY_BE_EXACT:
+            continue
+        need = MIN_DECIDED.get(kn, 1.0)
+        if total and dec / total < need:
+            ctx.add_fail(
+                {"cross_case": "decided-fraction", "kernel": kn, "tier": ctx.tier},
+                f"{kn}/decided-fraction",
+                f"kernel {kn}: only {dec} of {total} (case, method) pairs were decided by the exponent rule (verdicts {cnt}); required fraction {need}: "
+                "a kernel that coincides with the exact solution or whose residual is below the noise is not being tested",
+            )
+    wl = sorted(((out[3] or {}).get("max_exponent_shortfall_of_passing", -10), (out[3] or {}).get("worst_passing", "")) for _, out in results if (out[3] or {}).get("worst_passing") is not None and "max_exponent_shortfall_of_passing" in (out[3] or {}))
+    ctx.extra.update(
+        verdicts_per_kernel=tot,
+        decided_fraction_per_kernel=frac,
+        closest_passing=[f"{a:.3f} {b}" for a, b in wl[-3:]],
+        coefficients_compared=sum((out[3] or {}).get("coefficients_compared", 0) for _, out in results),
+    )
     ctx.rule = (
         "complete product order 2-4 x nf 3-6 x towers x base coupling pairs; NS: 6 complex towers, methods "
-        "{iterate,decompose,perturbative}-expanded, truncated, ordered-truncated; singlet: non-commuting complex 2x2 towers "
-        "with truncated, ordered-truncated, perturbative-exact/-expanded at (iterations, ev_op_max_order) in "
+        "{iterate,decompose,perturbative}-expanded, truncated, ordered-truncated; singlet: 3 non-commuting complex 2x2 towers (one with a "
+        "triangular gamma_0) with truncated, ordered-truncated, perturbative-exact/-expanded at (iterations, ev_op_max_order) in "
         "{(1,n),(4,n),(1,n+1),(1,10)}; commuting towers (one diagonal, one polynomial in a full matrix) additionally "
         "with decompose-exact/-expanded. Each case is scaled by lambda=2^0..2^-9 (10 exact references per case). "
         f"Base pairs: ordered pairs of {LA} (quick: 4 for NS - ratio 4 up/down, 25 up, 0.6 down - and the first 3 of them for the singlet; thorough: all 20 for NS, the 14 reaching 0.03 for the singlet). "
         "A (case, method) is decided when two local exponents exist above the 1e-13 noise floor; non-trivial = "
-        "at least one method decided"
+        "at least one method decided. Per (case, method) also the Richardson-eliminated signed difference (verdicts 'T-...'). "
+        "Plus one coefficient case per (order, nf, tower): non_singlet.U_vec resp. singlet.r_vec / u_vec at ev_op_max_order in {n, n+1, 10} x "
+        "fill-up {expanded, exact}, entries k < n, against the 40-digit series / Sylvester reference"
     )
     ctx.assumptions += [
         "exponent rule of DESIGN 2.3: last two local exponents >= n-0.25 pass; they fail when both agree to 0.1 "
-        "(asymptotic window reached) and one is below n-0.25; residuals < 1e-13 count as zero",
+        "(asymptotic window reached) and one is below n-0.25, or when both are more than one unit short; exponents still drifting at the "
+        "smallest lambda above the noise are reported as '<signature>/undecided' (none on the unchanged tree); residuals < 1e-13 count as zero",
+        f"Richardson rule: T_i = Delta(lambda_i) - 2^n Delta(lambda_i/2) (signed, entrywise), local exponents of max|T| above {FLOOR_T}; last two "
+        "both >= n+1-0.25 pass; fail when both are more than one unit short, when they agree to 0.1 below the threshold, or when they are below it "
+        "and bend downwards; a pair whose mean reaches the threshold (max|T| passing near a zero) or that bends upwards (leaving such a zero) passes; "
+        "fewer than two exponents above the floor: not judged (counted as T-few / T-zero)",
+        f"coefficient rule: max-norm relative deviation <= {TOL_COEFF} for R_k, U_k, k < n (terms k >= n - fill-up of the exact variant, higher U_k - are "
+        "beyond the working order and left to C12); beta_k as the dispatchers build them (eko.beta) against my table",
+        "every kernel except decompose-exact (exact on commuting towers) must be decided by the exponent rule on all its (case, method) pairs, "
+        "perturbative-exact on >= 75 % (measured 91 % quick, 85 % thorough; ev_op_max_order = 10 puts its residual below the noise for small base couplings)",
         "perturbative methods are required to reach the working order only for ev_op_max_order >= n (the number of "
         "U-matrices kept is the user's setting)",
         "decompose methods only on commuting towers (statement); 'exact kernel' = 40-digit path-ordered ODE solution "
